@@ -255,14 +255,14 @@ func RunC01(tier string, args []string) int {
 	// cross-location cases
 	cross := c01Cross(chk)
 	cov := fw.Coverage{
-		"evaluations":         probes + cross,
-		"distinct_nontrivial": distinct.N() + 2,
-		"rule":                "scenario = (configuration, list shape); every listed serial of the scenario is probed with its own certificate; distinct scenarios counted (each non-trivial: its CRL is in force, shown by the unlisted-accepted guard)",
-		"scenarios":           scen,
+		"evaluations":             probes + cross,
+		"distinct_nontrivial":     distinct.N() + 2,
+		"rule":                    "scenario = (configuration, list shape); every listed serial of the scenario is probed with its own certificate; distinct scenarios counted (each non-trivial: its CRL is in force, shown by the unlisted-accepted guard)",
+		"scenarios":               scen,
 		"listed_positions_probed": probes,
 		"cross_location_probes":   cross,
-		"samples":             samples,
-		"exhaustive":          true,
+		"samples":                 samples,
+		"exhaustive":              true,
 	}
 	return chk.Finish(cov)
 }
